@@ -971,6 +971,18 @@ func (e *Engine) mkRange(in *ssa.Range, x Value) Value {
 		if xx != nil {
 			it.Keys = append(it.Keys, xx.Order...)
 		}
+		e.mapRanges++
+		if len(it.Keys) >= 2 && len(it.Keys) <= 4 && e.envGet("maporder") == "sym" {
+			// Go's map iteration order is unspecified: explore every permutation
+			for i := 0; i < len(it.Keys)-1; i++ {
+				e.permSeq++
+				v := e.symVar(fmt.Sprintf("maporder_%d", e.permSeq), 8)
+				n := len(it.Keys) - i
+				e.assume(e.st.Lt(v, e.st.BV(uint64(n), 8), false))
+				k := int(e.concretize(v))
+				it.Keys[i], it.Keys[i+k] = it.Keys[i+k], it.Keys[i]
+			}
+		}
 		return it
 	}
 	panic(pathEnd{"unsupported", fmt.Sprintf("range over %T", x)})
